@@ -1,1 +1,65 @@
-From DV Require Import Prelude.Base Model.Node.
+(* C18 — graceful shutdown: DPR to ready peers, drain, refuse newcomers, close everything
+   Statements copied from the proof files; each is closed by `exact`. *)
+From DV Require Prelude.Base Model.Ids Proofs.IdsP Model.Node Proofs.NodeA.
+From Coq Require String List Lia Bool Arith ZArith.
+
+Module FromNodeA.
+Import DV.Prelude.Base DV.Model.Node DV.Proofs.NodeA.
+Import Coq.Strings.String.
+Open Scope string_scope.
+Open Scope list_scope.
+Open Scope Z_scope.
+
+(* C18: stop() queues exactly one DPR for each ready connection, in connection order, and nothing else;
+   a forced stop sends nothing; the node is stopping afterwards *)
+Theorem C18_dpr_to_ready n ds :
+  List.NoDup (List.map c_id (n_conns n)) ->
+  (List.map fst (queued (snd (step n ds (EStop false)))) =
+     List.map c_id (List.filter (fun c => is_ready_state (c_state c)) (n_conns n)) /\
+   List.Forall isdpr (queued (snd (step n ds (EStop false)))) /\
+   n_stopping (fst (step n ds (EStop false))) = true) /\
+  (snd (step n ds (EStop true)) = [] /\ n_stopping (fst (step n ds (EStop true))) = true).
+Proof. exact (@NodeA.C18_dpr_to_ready n ds). Qed.
+
+(* C18: while the node is stopping no timer fires, nobody is dialled, the I/O iteration outputs nothing *)
+Theorem C18_quiet_while_stopping n :
+  n_stopping n = true ->
+  (forall cid, check_timers n cid = (n, [])) /\
+  (forall names ds, dials_of (snd (fst (reconnect_all n names ds))) = [] /\
+                    snd (fst (reconnect_all n names ds)) = []) /\
+  (forall ds, snd (fst (io_iteration n ds)) = []).
+Proof. exact (@NodeA.C18_quiet_while_stopping n). Qed.
+
+(* C18: a connection accepted while stopping is closed at once and not registered *)
+Theorem C18_newcomers_refused n ds h :
+  n_stopping n = true ->
+  n_conns (fst (step n ds (EAccept h))) = n_conns n /\
+  snd (step n ds (EAccept h)) = [OClose (n_next_cid n) R_SHUTDOWN].
+Proof. exact (@NodeA.C18_newcomers_refused n ds h). Qed.
+
+(* C18: when stop() finishes no connection is left and each one was closed with NODE_SHUTDOWN *)
+Theorem C18_all_closed n ds tc te :
+  n_conns (fst (step n ds (EStopFinish tc te))) = [] /\
+  (forall c, List.In c (n_conns n) -> List.In (OClose (c_id c) R_SHUTDOWN) (snd (step n ds (EStopFinish tc te)))).
+Proof. exact (@NodeA.C18_all_closed n ds tc te). Qed.
+
+(* C18: a DPA closes the connection at once (CLEAN) if nothing is buffered; otherwise the connection is
+   CLOSING and the next flush that the socket accepts closes it *)
+Theorem C18_close_after_dpa n cid c :
+  get_conn n cid = Some c ->
+  (c_out c = [] -> snd (recv_dpa n cid) = [OClose cid R_CLEAN] /\ get_conn (fst (recv_dpa n cid)) cid = None) /\
+  (c_out c <> [] ->
+     snd (recv_dpa n cid) = [] /\
+     get_conn (fst (recv_dpa n cid)) cid = Some (set_cstate c SClosing) /\
+     (c_stalled c = false -> c_sock_open c = true ->
+      (exists pre post, snd (flush (fst (recv_dpa n cid))) =
+                        pre ++ List.map (OSend cid) (c_out c) ++ [OClose cid R_CLEAN] ++ post) /\
+      get_conn (fst (flush (fst (recv_dpa n cid)))) cid = None)).
+Proof. exact (@NodeA.C18_close_after_dpa n cid c). Qed.
+End FromNodeA.
+
+Print Assumptions FromNodeA.C18_dpr_to_ready.
+Print Assumptions FromNodeA.C18_quiet_while_stopping.
+Print Assumptions FromNodeA.C18_newcomers_refused.
+Print Assumptions FromNodeA.C18_all_closed.
+Print Assumptions FromNodeA.C18_close_after_dpa.
